@@ -149,4 +149,14 @@ def cases(tier, rng):
                 out.append(("spot", "%s %s lcg %d %d" % (op, f, n, rng.randrange(2**64))))
                 if f == "b" or k < 19:
                     out.append(("spot", "%s %s grid %d %d" % (op, f, n, rng.randrange(2**64))))
+    # very large sizes with unit vectors (closed-form spec in the oracle): the proof covers every l <= 31, this keeps the
+    # TIE to the code alive beyond the sizes the full model can be run at (index arithmetic that only breaks above 2^18)
+    for k in (range(16, 23) if not big else range(16, 25)):
+        n = 2**k
+        for f in ("b", "x") if k <= 20 else ("b",):
+            js = {1, n - 1, n // 2, n // 2 + 1, n // 4 + 3, rng.randrange(n), rng.randrange(n) | (n // 2), rng.randrange(n) | (n // 4)}
+            for j in sorted(js):
+                cs = "5" if f == "b" else "5 0 7"
+                out.append(("spot-unit-large", "ntt_spot %s unit %d %d %s" % (f, n, j, cs)))
+                out.append(("spot-unit-large", "intt_spot %s unit %d %d %s" % (f, n, j, cs)))
     return out
